@@ -1314,6 +1314,8 @@ func runC01(r *Run, rng *Rng, replay string) {
 	c01putsPhase(r, rng, nCols/3)
 	c01colseqPhase(r, rng, nCols/3)
 	c01rowseqPhase(r, rng, nCols/4)
+	c01sstseqPhase(r, rng, nCols/5)
+	c01styleseqPhase(r, rng, nCols/4)
 	lap("witnesses+attribute histories+cols")
 	// 1. fixed boundary payloads through every string op
 	for i, s := range c01fixedPayloads() {
@@ -1501,6 +1503,8 @@ func c01replay(r *Run, path string) {
 			c01mergeWitness(r)
 		case "rowseq":
 			c01rowseq(r, rest)
+		case "styleseq":
+			c01styleseq(r, rest)
 		case "colseq":
 			c01colseq(r, rest)
 		case "puts":
